@@ -65,11 +65,13 @@ def dump(fn, in_shape, in_dtype):
     g, v0 = flat_fn(fn, in_shape, in_dtype)
     cj = jax.make_jaxpr(g)(v0)
     eqs: list = []
+    impls: list = []                 # how to re-evaluate each variable (for validate_table)
     unsupported: set = set()
     nvars = [1]                      # variable 0 is the input
 
-    def new_var(prim, args):
+    def new_var(prim, args, impl=None):
         eqs.append((prim, args))
+        impls.append(impl)
         nvars[0] += 1
         return nvars[0] - 1
 
@@ -94,14 +96,14 @@ def dump(fn, in_shape, in_dtype):
             if name in INLINE and sub is not None:
                 sj = sub.jaxpr if hasattr(sub, "jaxpr") else sub
                 sconsts = getattr(sub, "consts", [])
-                cidx = [new_var(_const_name(c), []) for c in sconsts]
+                cidx = [new_var(_const_name(c), [], ("const", c)) for c in sconsts]
                 ins = []
                 for a in e.invars[: len(sj.invars)] if len(e.invars) >= len(sj.invars) else e.invars:
                     r = rd(a)
                     if r[0] == "v":
                         ins.append(r[1])
                     else:   # literal passed to a call: materialise
-                        ins.append(new_var("const_zero" if r[0] == "z" else "const", []))
+                        ins.append(new_var("const_zero" if r[0] == "z" else "const", [], ("const", a.val)))
                 # custom_jvp/vjp calls may carry extra leading operands; align from the end
                 if len(ins) != len(sj.invars):
                     unsupported.add(name + "(arity)")
@@ -125,19 +127,71 @@ def dump(fn, in_shape, in_dtype):
                 elif not np.issubdtype(src, np.complexfloating) and np.issubdtype(dst, np.complexfloating):
                     name = "real_to_complex"
             args = [rd(a) for a in e.invars]
-            for ov in e.outvars:
-                env[ov] = new_var(name, args)
+            spec = [("c", a.val) if isinstance(a, core.Literal) else ("v", env[a]) for a in e.invars]
+            for k, ov in enumerate(e.outvars):
+                env[ov] = new_var(name, args, ("prim", e.primitive, dict(e.params), spec, k))
         outs = []
         for o in jaxpr.outvars:
             if isinstance(o, core.Literal):
-                outs.append(new_var("const_zero" if _is_zero_literal(o) else "const", []))
+                outs.append(new_var("const_zero" if _is_zero_literal(o) else "const", [], ("const", o.val)))
             else:
                 outs.append(env[o])
         return outs
-    cidx = [new_var(_const_name(c), []) for c in cj.consts]
+    cidx = [new_var(_const_name(c), [], ("const", c)) for c in cj.consts]
     outs = walk(cj.jaxpr, cidx, [0])
     assert len(outs) == 1
+    dump.last_impls = impls
     return eqs, outs[0], unsupported
+
+
+def evaluate(impls, x):
+    """values of all variables (variable 0 = x) of a dumped program; None if it cannot be re-evaluated"""
+    vals = [x]
+    cache = {}
+    for idx, im in enumerate(impls):
+        if im is None:
+            return None
+        if im[0] == "const":
+            vals.append(jnp.asarray(im[1]))
+            continue
+        _, prim, params, spec, k = im
+        key = (id(prim), id(params) if False else tuple(map(str, spec)), idx - k)
+        if key in cache:
+            res = cache[key]
+        else:
+            args = [vals[a[1]] if a[0] == "v" else a[1] for a in spec]
+            res = prim.bind(*args, **params)
+            if not prim.multiple_results:
+                res = [res]
+            cache[key] = res
+        vals.append(res[k])
+    return vals
+
+
+def validate_table(impls, kinds, x, y, a, b, tol):
+    """check the trusted per-primitive table on the instances met: every variable's kind, as
+    assigned by lin_check, must describe how its VALUE in the run on a x + b y relates to its
+    values in the runs on x and y.  Returns a list of (variable index, kind, max deviation)."""
+    vx, vy, vs = evaluate(impls, x), evaluate(impls, y), evaluate(impls, a * x + b * y)
+    if vx is None:
+        return None
+    bad = []
+    for i, k in enumerate(kinds):
+        px, py, ps = (np.asarray(v[i]) for v in (vx, vy, vs))
+        if px.dtype == bool or not np.issubdtype(px.dtype, np.number):
+            continue
+        if k == 0:      # constant
+            d = max(np.abs(px - ps).max(initial=0), np.abs(py - ps).max(initial=0))
+        elif k == 1:    # zero
+            d = max(np.abs(px).max(initial=0), np.abs(py).max(initial=0), np.abs(ps).max(initial=0))
+        elif k == 2:    # linear
+            d = np.abs(ps - (a * px + b * py)).max(initial=0)
+        else:           # conjugate-linear
+            d = np.abs(ps - (np.conj(a) * px + np.conj(b) * py)).max(initial=0)
+        scale = max(1.0, float(np.abs(ps).max(initial=0)))
+        if d > tol * scale:
+            bad.append((i, k, float(d)))
+    return bad
 
 
 def coq_arg(a):
